@@ -303,6 +303,7 @@ struct Rw<'a> {
     file: String,
     const_values: &'a BTreeMap<String, u64>, // extract.json "const_values": integer constants of dependencies (N15)
     n16: usize,
+    local_str_newtypes: BTreeSet<String>,
 }
 
 /// N15: value of a constant integer expression made of literals, `+`/`-`/`*`, parentheses and the constants of the table
@@ -579,6 +580,23 @@ impl<'a> VisitMut for Rw<'a> {
         self.push_params(&f.sig);
         visit_mut::visit_trait_item_fn_mut(self, f);
         self.pop_params();
+    }
+
+    // a qualified path `<T as dep::Trait>::Item`: the trait part is the first `position` segments; prefixing the path
+    // (crate -> crate::code, dep -> crate::standin::dep) moves that boundary
+    fn visit_type_path_mut(&mut self, tp: &mut TypePath) {
+        let before = tp.path.segments.len();
+        visit_mut::visit_type_path_mut(self, tp);
+        if let Some(q) = tp.qself.as_mut() {
+            q.position += tp.path.segments.len() - before;
+        }
+    }
+    fn visit_expr_path_mut(&mut self, ep: &mut ExprPath) {
+        let before = ep.path.segments.len();
+        visit_mut::visit_expr_path_mut(self, ep);
+        if let Some(q) = ep.qself.as_mut() {
+            q.position += ep.path.segments.len() - before;
+        }
     }
 
     fn visit_path_mut(&mut self, p: &mut Path) {
@@ -938,6 +956,35 @@ impl<'a> VisitMut for Rw<'a> {
                 Stmt::Macro(m) => filter_attrs(&mut m.attrs, feats, &mut self.log),
                 Stmt::Item(_) => true,
             };
+            // N19: a local `#[derive(serde::Deserialize)] struct X<'a>(Cow<'a, str>);` (a transparent new-type around a string: its
+            // derived impl forwards to the string's) is dropped, and `let X(raw) = E;` becomes `let raw: String = E;`
+            if let Stmt::Item(Item::Struct(st)) = &s {
+                let derives_de = st.attrs.iter().any(|a| a.path().is_ident("derive") && a.meta.to_token_stream().to_string().contains("Deserialize"));
+                if derives_de {
+                    if let Fields::Unnamed(fu) = &st.fields {
+                        if fu.unnamed.len() == 1 {
+                            let ty = norm(&fu.unnamed.first().unwrap().ty.to_token_stream().to_string());
+                            if ty.contains("Cow<") && ty.contains("str>") || ty == "String" {
+                                self.local_str_newtypes.insert(st.ident.to_string());
+                                self.log.push(format!("N19 local new-type {} around a string dropped", st.ident));
+                                continue;
+                            }
+                        }
+                    }
+                }
+            }
+            if let Stmt::Local(l) = &mut s {
+                if let Pat::TupleStruct(pts) = &l.pat {
+                    let nm = pts.path.segments.last().map(|sg| sg.ident.to_string()).unwrap_or_default();
+                    if self.local_str_newtypes.contains(&nm) && pts.elems.len() == 1 {
+                        if let Pat::Ident(pi) = pts.elems.first().unwrap() {
+                            let id = pi.ident.clone();
+                            l.pat = Pat::Type(PatType { attrs: vec![], pat: Box::new(Pat::Ident(PatIdent { attrs: vec![], by_ref: None, mutability: None, ident: id.clone(), subpat: None })), colon_token: Default::default(), ty: Box::new(parse_quote!(String)) });
+                            self.log.push(format!("N19 let {}(..) = .. -> let {}: String = ..", nm, id));
+                        }
+                    }
+                }
+            }
             if keep {
                 // N16: `let [a, b, .., y, z] = E;` (identifiers, `_`, at most one `..`) -> one indexing `let` per binding
                 if let Some(mut expanded) = self.expand_slice_let(&s) {
@@ -2116,6 +2163,8 @@ fn main() {
     let keep_only: Option<BTreeSet<String>> = cfg["keep_only"].as_array().map(|a| a.iter().map(|v| norm(v.as_str().unwrap())).collect());
     let nohint: BTreeSet<String> = cfg["nohint_fns"].as_array().map(|a| a.iter().map(|v| norm(v.as_str().unwrap())).collect()).unwrap_or_default();
     let ext_types: BTreeSet<String> = cfg["external_body_types"].as_array().map(|a| a.iter().map(|v| v.as_str().unwrap().to_string()).collect()).unwrap_or_default();
+    let inline_modules: BTreeSet<String> = cfg["inline_modules"].as_array().map(|a| a.iter().map(|v| v.as_str().unwrap().to_string()).collect()).unwrap_or_default();
+    let mut log_n18: Vec<String> = vec![];
     let drop_fns: BTreeSet<String> = cfg["drop_fns"].as_array().map(|a| a.iter().map(|v| norm(v.as_str().unwrap())).collect()).unwrap_or_default();
     let drop_items: BTreeSet<String> = cfg["drop_items"].as_array().unwrap().iter().map(|v| norm(v.as_str().unwrap())).collect();
 
@@ -2168,6 +2217,31 @@ fn main() {
         };
         file.attrs.clear();
         let mut log: Vec<String> = vec![];
+        // ---- N18: functions of an inline module listed in extract.json "inline_modules" are emitted in the parent module (the
+        // module path has no run-time meaning; `pub` stays)
+        {
+            let mut flat = vec![];
+            for it in std::mem::take(&mut file.items) {
+                if let Item::Mod(mut m) = it {
+                    if inline_modules.contains(&m.ident.to_string()) && m.content.is_some() {
+                        let mut a = std::mem::take(&mut m.attrs);
+                        if filter_attrs(&mut a, &feats, &mut dropped_log) {
+                            log_n18.push(format!("N18 {path}: items of inline module `{}` emitted in the parent module", m.ident));
+                            for inner in m.content.take().unwrap().1 {
+                                flat.push(inner);
+                            }
+                        } else {
+                            dropped_log.push(format!("{path}: cfg-dropped mod {}", m.ident));
+                        }
+                        continue;
+                    }
+                    flat.push(Item::Mod(m));
+                } else {
+                    flat.push(it);
+                }
+            }
+            file.items = flat;
+        }
         // ---- item filtering
         let mut items = vec![];
         for mut it in std::mem::take(&mut file.items) {
@@ -2304,9 +2378,11 @@ fn main() {
             file: path.to_string(),
             const_values: &const_values,
             n16: 0,
+            local_str_newtypes: BTreeSet::new(),
         };
         rw.visit_file_mut(&mut file);
         log.extend(rw.log);
+        log.append(&mut log_n18);
         // fallback after an unresolved import: the named imports are removed (the bodies of the module are dropped as well)
         if !drop_use_names.is_empty() {
             fn prune(t: UseTree, names: &BTreeSet<String>) -> Option<UseTree> {
